@@ -19,7 +19,8 @@ def c01(tier):
             Ob('c01_date_to_days_holds'),
             Ob('c01_date_from_ymd_holds'),
             Ob('c01_datetime_from_ymd_holds'),
-            Ob('c01_roundtrip_holds', abstractions=['days_to_date'])]
+            Ob('c01_roundtrip_holds', abstractions=['days_to_date']),
+            Ob('c01_triple_roundtrip_holds', abstractions=['days_to_date', 'spec_rd/uf'])]
     return obs
 
 def fns_of(prefix, text_file):
@@ -141,6 +142,21 @@ def c14(tier):
         obs.append(Ob('c14_datetime_from_str_total_holds', strlen=L, note='all strings of byte length %d' % L))
     return obs
 
+def c17(tier):
+    from engine_m import cronloop
+    days = (738_156, 739_616) if tier != 'thorough' else (719_162, 3_652_058)      # 2022-01-01..2025-12-31 / 1970..9999
+    B = ['days_to_date/bound', 'spec_rd/uf'] + KERNELS
+    obs = [Ob('c01_days_to_date_holds', slices=[{'d': (-2**31, -1)}, {'d': (0, 2**31 - 1)}], note='contract of days_to_date'),
+           Ob('c01_date_to_days_holds', note='contract of date_to_days'), Ob('oracle_rd_monotone_holds', profiles=('on',), note='lemma instantiated in c17_month_constant_holds'),
+           Ob('c01_triple_roundtrip_holds', abstractions=['days_to_date', 'spec_rd/uf'], note='side fact of the date_to_days abstraction')] + kernel_obs()
+    obs += [Ob('c17_hour_constant_holds', abstractions=KERNELS), Ob('c17_day_constant_holds', abstractions=['days_to_date/uf', 'days_to_doy/uf'] + KERNELS),
+            Ob('c17_month_constant_holds', abstractions=B)]
+    for piece in ('prologue', 'exit', 'month', 'day', 'hour', 'minute'):
+        o = Ob('c17_piece_' + piece, opts={'piece': piece, 'days': days}, validate=False)
+        o.custom = cronloop.piece
+        obs.append(o)
+    return obs
+
 PROPS = {
     'C01': {'obligations': c01,
             'bounds': 'all 2^32 day numbers; all (year, month, day) in i32 x u32 x u32; month loop unwound 16 with unwinding assertion',
@@ -155,6 +171,7 @@ PROPS = {
     'C10': {'obligations': c10, 'bounds': 'all instants with a one-day margin at the range ends x all offsets in (-24h, 24h)', 'outside': 'the x/X zone text (C11); Offset::Local (reads /etc/localtime: C18)'},
     'C13': {'obligations': c13, 'bounds': 'read side only: all strings of each listed byte length (<= 45) over ASCII and two-byte UTF-8 sequences; reference reader loop unwound 30', 'outside': 'format_rfc3339 (String building); strings with 3/4-byte characters; lengths above 45'},
     'C14': {'obligations': c14, 'bounds': 'DateTime::parse_rfc3339 and DateTime::from_str only: all strings of each listed byte length (<= 45) over ASCII and two-byte UTF-8', 'outside': 'parse()/format() with pattern strings, Date/Time::from_str, CronSchedule::parse (String/Vec<String> code out of reach)'},
+    'C17': {'obligations': c17, 'cfg_test': True, 'bounds': 'all schedules (any non-empty subsets of the five field ranges), clock and loop state in the stated day window (quick: 2022-2025, thorough: 1970-9999), offset 0; any number of carry steps by induction over loop iterations (meta-step)', 'outside': 'termination for unsatisfiable schedules; schedules whose pinned clock carries a non-zero offset; expression parsing (C16)'},
     'C15': {'obligations': c15, 'bounds': 'full i32/u32/u64 domain of every parameter', 'outside': 'the rendered message text (std formatting of the tracked min/max/value fields)'},
     'C04': {'obligations': c04, 'bounds': 'all instants x all u32 counts; all Durations (u64 secs, u32 nanos < 10^9)', 'outside': ''},
 }
